@@ -10,11 +10,15 @@ let psym (d, l) = p3 d; p3 l
 let psv (a, b) = p3 a; p3 b
 
 let () =
-  let bodies = ref [] and haveacc = ref false in
+  let bodies = ref [] and raw = ref [] and haveacc = ref false in
   let finish () =
     let cl = List.rev !bodies in
     let bs = List.map (fun c -> c.c_body) cl in
     Printf.printf "SYS %d 0 0\n" (List.length cl + 1);
+    List.iter (fun (i, b) ->
+        let ((m, c), g) = transformedMassPropsB fops b in
+        Printf.printf "OUT BTMP %d %h" i m; p3 c; psym g; print_newline ();
+        Printf.printf "OUT BMOM %d" i; psv (bodyCentralMomentumB fops b); print_newline ()) (List.rev !raw);
     Printf.printf "OUT MASS %h\n" (calcSystemMass fops bs);
     Printf.printf "OUT COM"; p3 (calcSystemMassCenterLocationInGround fops bs); print_newline ();
     Printf.printf "OUT COMV"; p3 (calcSystemMassCenterVelocityInGround fops bs); print_newline ();
@@ -31,15 +35,17 @@ let () =
   try while true do
     let line = input_line stdin in
     match toks line with
-    | "SYS" :: _ :: _ :: a :: _ -> bodies := []; haveacc := (a = "1")
+    | "SYS" :: _ :: _ :: a :: _ -> bodies := []; raw := []; haveacc := (a = "1")
     | "BODY" :: i :: p :: _ :: _ :: r ->
         let f = Array.of_list (List.map fl r) in
-        let b = { g_m = f.(3); g_r = v3 f.(4) f.(5) f.(6); g_p = v3 f.(7) f.(8) f.(9);
-                  g_G = (v3 f.(10) f.(11) f.(12), v3 f.(13) f.(14) f.(15));
-                  g_V = (v3 f.(16) f.(17) f.(18), v3 f.(19) f.(20) f.(21));
-                  g_A = (v3 f.(22) f.(23) f.(24), v3 f.(25) f.(26) f.(27)) } in
-        bodies := { c_idx = nat_of_int (int_of_string i); c_par = nat_of_int (int_of_string p);
-                    c_l = v3 f.(0) f.(1) f.(2); c_body = b } :: !bodies
+        let b = { f_m = f.(3); f_r = v3 f.(4) f.(5) f.(6); f_c = v3 f.(7) f.(8) f.(9);
+                  f_G = (v3 f.(10) f.(11) f.(12), v3 f.(13) f.(14) f.(15));
+                  f_R = ((v3 f.(16) f.(17) f.(18), v3 f.(19) f.(20) f.(21)), v3 f.(22) f.(23) f.(24));
+                  f_V = (v3 f.(25) f.(26) f.(27), v3 f.(28) f.(29) f.(30));
+                  f_A = (v3 f.(31) f.(32) f.(33), v3 f.(34) f.(35) f.(36)) } in
+        let ix = int_of_string i in
+        raw := (ix, b) :: !raw;
+        bodies := mkCbxB fops (nat_of_int ix) (nat_of_int (int_of_string p)) (v3 f.(0) f.(1) f.(2)) b :: !bodies
     | "END" :: _ -> finish ()
     | "SKIP" :: _ -> print_endline "SKIP"
     | _ -> ()
